@@ -196,8 +196,9 @@ impl TransportConstraint {
             let latest_arrival = route_ctx.state().get_latest_arrival_at(activity_ctx.index + 1).copied();
             (next.place.location, latest_arrival.unwrap_or(next.place.time.end))
         } else {
-            // open vrp
-            (target.place.location, target.place.time.end.min(actor.detail.time.end))
+            // open vrp: the tour ends at the target, so only the shift end limits it. The target's own time window
+            // is checked below as for any other position (it must not rule out other time windows of the job)
+            (target.place.location, actor.detail.time.end)
         };
 
         let arr_time_at_next = departure
